@@ -58,6 +58,6 @@ ddpfloat Gausssche_Fehlerfunktion(ddpfloat x) {
 }
 
 ddpfloat Runden(ddpfloat x, ddpint n) {
-	int shft = pow(10, n);
+	double shft = pow(10, n);
 	return round(x * shft) / shft;
 }
